@@ -1,7 +1,7 @@
 #!/bin/bash
-# ingest_r13.sh <Cnn> <new-id> : takes the uncommitted change + _seed/ of the scratch worktree /tmp/r13/<Cnn>, stores it as seeded/<new-id>/
+# ingest_r13.sh <Cnn> <new-id> [round-dir] : takes the uncommitted change + _seed/ of the scratch worktree /tmp/r13/<Cnn>, stores it as seeded/<new-id>/
 # (patch.diff, demo.py, notes.md, stub meta.json) and runs the first-attempt detection (quick check of the property against the worktree).
-p=$1; id=$2; wt=/tmp/r13/$p
+p=$1; id=$2; wt=${3:-/tmp/r13}/$p
 cd "$(dirname "$0")/.."
 mkdir -p seeded/$id
 git -C $wt diff -- src > seeded/$id/patch.diff
